@@ -591,7 +591,9 @@ fn lcs_fields(ms: &[(u32, u32)], k: usize) -> String {
 fn sdp_fields(ms: &[(u32, u32)], k: usize, msc: u32, go: i32, ge: i32) -> String {
     let r = sparse::sdpkpp(ms, k, msc, -go, -ge);
     let u = sparse::sdpkpp_union_lcskpp_path(ms, k, msc, -go, -ge);
-    format!("sdp={} uni={}", join(&r.path, ","), join(&u, ","))
+    let dpf: Vec<String> = r.dp_vector.iter().map(|c| format!("{}:{}", c.0, c.1 as i64 + 1)).collect();
+    let dpf = if dpf.is_empty() { "-".to_string() } else { dpf.join(",") };
+    format!("sdp={} uni={} sdpscore={} sdpf={}", join(&r.path, ","), join(&u, ","), r.score, dpf)
 }
 
 pub fn exec(toks: &[&str]) -> Result<String, String> {
